@@ -27,7 +27,8 @@ def check(tier, seed):
 replay = R.replay
 
 MANIFEST = {
-    "technique": "Coq lemma on the aggregation step (monotone under the receiver invariant, clamped to the source watermark) + correspondence and monotone/bounded/completion monitor in virtual time",
+    "technique": "Coq proof that every acknowledgement of every fault-free action sequence is monotone and bounded (corollary of the routing invariant) + correspondence and "
+                 "monotone/bounded/completion monitor in virtual time",
     "text": "C03_acks_monotone_bounded_all_runs proves for every fault-free action sequence (every interleaving, any number of sources and targets) that each acknowledgement sent to a source is >= "
             "the previous one and <= the source's last high watermark (a consequence of the routing invariant). C03_ack_monotone_bounded (coq/properties/C03.v) proves that every value the receiver sends upstream is >= the previous one (under the receiver invariant) and <= the last source high watermark; "
             "the model is tied to the code as for C01. Eventual completeness is checked as progress under the canonical fair schedule: histories end with completion rounds in virtual time and the "
